@@ -88,3 +88,68 @@ pub fn short_loc(loc: &str) -> String {
     }
     loc.to_string()
 }
+
+// ---------------------------------------------------------------------------------------------
+// "tracer storm": signals delivered to the DUMPING thread itself while it works
+// ---------------------------------------------------------------------------------------------
+
+/// A process that takes dumps may well have signal handlers of its own (timers, SIGCHLD, SIGUSR
+/// based job control) installed without SA_RESTART. While a storm is active a helper thread keeps
+/// sending SIGUSR2 (handler: count and return) to the thread that called `start`, so that its
+/// blocking system calls - notably the `waitpid` after PTRACE_ATTACH - return EINTR now and then.
+pub struct Storm {
+    stop: std::sync::Arc<std::sync::atomic::AtomicBool>,
+    handle: Option<std::thread::JoinHandle<u64>>,
+}
+
+static STORM_DELIVERED: std::sync::atomic::AtomicU64 = std::sync::atomic::AtomicU64::new(0);
+
+extern "C" fn storm_handler(_sig: libc::c_int) {
+    STORM_DELIVERED.fetch_add(1, std::sync::atomic::Ordering::Relaxed);
+}
+
+impl Storm {
+    /// `gap_us`: pause between two signals in microseconds. The period must leave the interrupted
+    /// thread room to make progress (a handler run plus a restarted system call take a few
+    /// microseconds): a storm that is too dense is a livelock of the harness's own making.
+    pub fn start(gap_us: u32) -> Storm {
+        unsafe {
+            let mut act: libc::sigaction = std::mem::zeroed();
+            act.sa_sigaction = storm_handler as *const () as usize;
+            act.sa_flags = 0; // deliberately no SA_RESTART
+            libc::sigemptyset(&mut act.sa_mask);
+            libc::sigaction(libc::SIGUSR2, &act, std::ptr::null_mut());
+        }
+        let me = unsafe { libc::pthread_self() } as usize;
+        let stop = std::sync::Arc::new(std::sync::atomic::AtomicBool::new(false));
+        let s2 = stop.clone();
+        let handle = std::thread::spawn(move || {
+            let mut sent = 0u64;
+            while !s2.load(std::sync::atomic::Ordering::Relaxed) {
+                unsafe {
+                    libc::pthread_kill(me as libc::pthread_t, libc::SIGUSR2);
+                }
+                sent += 1;
+                std::thread::sleep(std::time::Duration::from_micros(std::cmp::max(gap_us, 20) as u64));
+            }
+            sent
+        });
+        Storm { stop, handle: Some(handle) }
+    }
+
+    /// stops the storm; returns (signals sent, signals the handler has run for so far in this process)
+    pub fn stop(mut self) -> (u64, u64) {
+        self.stop.store(true, std::sync::atomic::Ordering::SeqCst);
+        let sent = self.handle.take().and_then(|h| h.join().ok()).unwrap_or(0);
+        (sent, STORM_DELIVERED.load(std::sync::atomic::Ordering::Relaxed))
+    }
+}
+
+impl Drop for Storm {
+    fn drop(&mut self) {
+        self.stop.store(true, std::sync::atomic::Ordering::SeqCst);
+        if let Some(h) = self.handle.take() {
+            let _ = h.join();
+        }
+    }
+}
